@@ -75,7 +75,34 @@ CLAIM = {
             'a rep_max entry in the parameters between simulate() and simulate(index) calls are compared with the '
             'model, with a freshly built runner and with first principles. Objects shared between two users: only '
             'results.params / runner.params (fixed, c561af3); the API offers no way to hand one parameters object '
-            'to two runners.',
+            'to two runners. Every observable of a stored Result (value, total, num_updates, result sums, accumulated '
+            'value / total lists, type, accumulate flag) for SUM / RATIO / MISC / CHOICE x accumulate on / off x 0-2 '
+            'updates per repetition x constructor / Result.create / add_new_result: THEOREMS merged_lists_are_concat, '
+            'merged_lists_untouched_without_accumulate, merged_counts_are_sums, merged_misc_is_last, '
+            'stored_result_accumulates_every_repetition on the model of Result.update / Result.merge '
+            '(Model/C05Result.lean), correspondence through the runner, the partial files and the direct '
+            'merge_all_results (into an empty object / into the first repetition) / Result.merge / '
+            'append_all_results / append_result paths (`mrg` lines), first-principles oracle expected_extras. '
+            'R8 (positional / keyword / default / explicit-default arguments of simulate, get_pack_indexes, '
+            'get_result_values_list, add / __setitem__ / SimulationParameters.create, set_unpack_parameter, Result, '
+            'Result.create, add_new_result, add_result, update): correspondence + oracle (the model line is the same '
+            'for every form). R9 (variation index and rep_max as np.int8..uint64, intp, 0-d array, bool, str; CHOICE '
+            'values as numpy ints; index 257 / 299 of 300 variations): correspondence + oracle. R10 (value lists '
+            'mixing int / float / numpy scalars / complex, repetitions returning ints, floats and numpy scalars of '
+            'half-integer values in turn): correspondence + oracle, nothing may be truncated. R11: theorem side: every '
+            'model look-up is a pure function of the state (no step); code side: a batch of ~60 non-setter calls '
+            '(repr, ==, len, iter, get_*, to_dict / to_json, means, variances, confidence intervals, accumulated '
+            'lists, runner properties) inside the histories, every observable compared after each call, the history '
+            'goes on and is compared with the model. R12: lookup_no_stale_state (parameters: content, not insertion '
+            'order) by theorem; results added in another order in every repetition, parameters / unpack flags / '
+            'fixed values in other orders by correspondence + oracle keyed by name. R13 (variations obtained from a '
+            'parameters object: pickle / to_dict / to_json round trips give the variation back, changing a variation '
+            'does not change the parent nor the parent a variation derived earlier, deep copy of the parent; partial '
+            'files = save / load of per-variation results; operands of merges unchanged): correspondence + oracle; in '
+            'the model these are values. R14 (300 variations with indexes 257 / 299 / 300, 272 = 17x16, rep_max 300, '
+            '258 named results per repetition, 258 extra parameters, thorough: 65537 and 258x257 variations): '
+            'correspondence + oracle, the theorems are unbounded. All of R8-R14 apply; none exposed a defect of the '
+            'unmodified library.',
 }
 
 NAME_POOL = ['a', 'b', 'c', 'aa', 'ab', 'B', 'Z', 'a1', '_x', 'snr', 'SNR', 'M', 'z9']
@@ -2659,18 +2686,18 @@ def check(ctx):
                              'xr:form=addnew']
     cases = corpus_cases()
     rng = ctx.rng.fork('sim')
-    cases += [gen_case(rng) for _ in range(1500 if quick else 15000)]
-    cases += grid_cases(ctx.rng.fork('grid'), 4000 if quick else 60000)
+    cases += [gen_case(rng) for _ in range(1100 if quick else 11000)]
+    cases += grid_cases(ctx.rng.fork('grid'), 3000 if quick else 60000)
     hrng = ctx.rng.fork('hist')
-    cases += [gen_hist(hrng) for _ in range(500 if quick else 5000)]
-    cases += [gen_hist2(hrng) for _ in range(400 if quick else 4000)]
+    cases += [gen_hist(hrng) for _ in range(500 if quick else 3500)]
+    cases += [gen_hist2(hrng) for _ in range(400 if quick else 3000)]
     mrng = ctx.rng.fork('mrg')
-    cases += [gen_mrg(mrng) for _ in range(1500 if quick else 30000)]
+    cases += [gen_mrg(mrng) for _ in range(1000 if quick else 12000)]
     rrng = ctx.rng.fork('robust')
     for rc in ('R1', 'R2', 'R5', 'R6'):
-        cases += [gen_rcase(rrng, rc) for _ in range(200 if quick else 2000)]
+        cases += [gen_rcase(rrng, rc) for _ in range(200 if quick else 1400)]
     for rc in ('R8', 'R9', 'R10', 'R12'):
-        cases += [gen_rcase(rrng, rc) for _ in range(150 if quick else 1500)]
+        cases += [gen_rcase(rrng, rc) for _ in range(150 if quick else 900)]
     cases += big_cases(quick)
     if quick:
         cases += exhaustive_cases(4, (1, 2))
